@@ -227,18 +227,41 @@ where
     }
 }
 
-impl<'a, T, C> FromTLV<'a> for TLVContainer<'a, T, C>
+// NOTE: `from_tlv` validates the container type (like `new`), because `iter` relies on the
+// element being a container. Data coming from the wire must never reach `new_unchecked`.
+impl<'a, T> FromTLV<'a> for TLVContainer<'a, T, AnyContainer>
 where
     T: FromTLV<'a>,
-    C: 'a,
 {
     fn from_tlv(element: &TLVElement<'a>) -> Result<Self, Error> {
-        if !element.is_empty() {
-            // `iter()` relies on the element being a container
-            element.container()?;
-        }
+        Self::new(element.clone())
+    }
+}
 
-        Ok(Self::new_unchecked(element.clone()))
+impl<'a, T> FromTLV<'a> for TLVContainer<'a, T, ArrayContainer>
+where
+    T: FromTLV<'a>,
+{
+    fn from_tlv(element: &TLVElement<'a>) -> Result<Self, Error> {
+        Self::new(element.clone())
+    }
+}
+
+impl<'a, T> FromTLV<'a> for TLVContainer<'a, T, ListContainer>
+where
+    T: FromTLV<'a>,
+{
+    fn from_tlv(element: &TLVElement<'a>) -> Result<Self, Error> {
+        Self::new(element.clone())
+    }
+}
+
+impl<'a, T> FromTLV<'a> for TLVContainer<'a, T, StructContainer>
+where
+    T: FromTLV<'a>,
+{
+    fn from_tlv(element: &TLVElement<'a>) -> Result<Self, Error> {
+        Self::new(element.clone())
     }
 }
 
